@@ -116,6 +116,17 @@ Theorem C02_histories_with_a_filling_evicting_cache : forall ops ev,
   conds empty_world ([], []) ops -> run_d ev 0 (fun _ _ _ => cempty) empty_world ops = run empty_world ops.
 Proof. exact history_with_cache_from_scratch. Qed.
 
+(** non-vacuity: the example history above, run with a cache that is filled on every load and commit and
+    never evicts, and with one that evicts everything after every step *)
+Example C02_example_caches :
+  let ops := (ex02_a ++ ex02_b ++ [OLoad 0 7 0 1; OIter 7])%list in
+  run_d (fun _ _ => false) 0 (fun _ _ _ => cempty) empty_world ops = run empty_world ops /\
+  run_d (fun _ _ => true) 0 (fun _ _ _ => cempty) empty_world ops = run empty_world ops.
+Proof.
+  assert (C : conds empty_world ([], []) (ex02_a ++ ex02_b ++ [OLoad 0 7 0 1; OIter 7])) by (apply condsb_ok; vm_compute; reflexivity).
+  split; apply history_with_cache_from_scratch; exact C.
+Qed.
+
 Print Assumptions C02_frame.
 Print Assumptions C02_captured_stable.
 Print Assumptions C02_store_monotone.
